@@ -17,7 +17,10 @@
 (*   cut-short                     an application running at T finished a  *)
 (*                                 complete response before T + graceful,  *)
 (*                                 the client stayed, yet the client did   *)
-(*                                 not get the complete response           *)
+(*                                 not get the complete response; or it    *)
+(*                                 was cancelled before T + graceful       *)
+(*                                 ("lets requests already in progress     *)
+(*                                 finish for up to graceful_timeout")     *)
 (*   unbounded-shutdown            serve() ended later than T + graceful + *)
 (*                                 shutdown_timeout + SLACK, or never      *)
 (*   not-cancelled                 an application running at T is still    *)
@@ -57,7 +60,9 @@ App(s, a)  == Get(s.apps, a, NoApp)
 Trig(s) == s.trigAt >= 0
 Late(s, a) == App(s, a).atTrig /\ (~App(s, a).done \/ App(s, a).doneAt > s.trigAt + s.graceful)
 Stuck(s) == Cardinality({a \in DOMAIN s.apps : Late(s, a)})
-Situation(s) == s.w \o (IF Stuck(s) = 0 THEN "/no-stuck-request"
+Situation(s) == s.w \o (IF Stuck(s) = 0
+                        THEN (IF \E a \in DOMAIN s.apps : s.apps[a].atTrig
+                              THEN "/requests-finished-within-grace" ELSE "/no-request-in-progress")
                         ELSE IF Stuck(s) = 1 THEN "/one-stuck-request"
                         ELSE "/several-stuck-requests")
 Source(s) == s.w \o "/" \o s.src
@@ -83,8 +88,11 @@ Clauses(s, ev) ==
                              ELSE "/fresh-connection"))>>
             ELSE <<>>
        [] ev.e = "app_done" ->
-            IF Trig(s) /\ App(s, ev.app).atTrig /\ ev.now > s.trigAt + s.graceful + SLACK
-            THEN <<F("not-cancelled", Situation(s))>> ELSE <<>>
+            (IF Trig(s) /\ App(s, ev.app).atTrig /\ ev.now > s.trigAt + s.graceful + SLACK
+             THEN <<F("not-cancelled", Situation(s))>> ELSE <<>>)
+            \o (IF Trig(s) /\ App(s, ev.app).atTrig /\ ev.how = "cancelled" /\ ~s.winddown
+                    /\ ev.now < s.trigAt + s.graceful /\ ~Conn(s, App(s, ev.app).c).byClient
+                THEN <<F("cut-short", s.w \o "/cancelled-before-grace-elapsed")>> ELSE <<>>)
        [] ev.e = "quiescent" ->
             (IF Trig(s) /\ ~s.winddown
                 /\ \E c \in DOMAIN s.conns :
